@@ -520,10 +520,45 @@ def rule_universal(repo: Repo) -> RuleResult:
     return r
 
 
+# classes whose instances the transition keeps in SETS (Operator.grounded_effects, Action.conditional_effects / universal_effects,
+# UniversalEffect.conditional_effects): a value equality that ignores a component merges distinct effects, and the one that is dropped
+# never fires.  Each line: class -> the components an equality has to distinguish (one field of every group).
+SET_MEMBERS = {
+    "GroundedEffect": [{"grounded_antecedents"}, {"grounded_discrete_effects", "_lifted_discrete_effects"},
+                       {"grounded_numeric_effects", "_lifted_numeric_effects"}],
+    "ConditionalEffect": [{"antecedents"}, {"discrete_effects"}, {"numeric_effects"}],
+    "UniversalEffect": [{"quantified_parameter"}, {"quantified_type"}, {"conditional_effects"}],
+}
+
+
+def rule_setmembers(repo: Repo, rid: str = "C03.setmembers") -> RuleResult:
+    from .. import fields as F
+    r = RuleResult(rid, "effect objects collected in sets are distinguished by identity, or by an equality that reads every component (condition and consequents)",
+                   "every conditional effect of the action takes part in the transition; two effects with the same consequent but different conditions stay two effects")
+    for cname, groups in SET_MEMBERS.items():
+        if cname not in repo.classes:
+            raise AnalysisError(f"{rid}: class {cname} not found")
+        r.site(f"{cname}.__eq__")
+        eq = repo.find_method(cname, "__eq__")
+        if eq is None:
+            r.ok({"class": cname, "equality": "identity"})
+            continue
+        f = L.fn(repo, f"{eq.cls}.__eq__")
+        got = F.slice_fields(repo, f, f.self_name or f.params[0], cname)
+        missing = [sorted(gp) for gp in groups if not (gp & got)]
+        if missing:
+            r.fail(Finding(rid, f, f"coarse-equality:{cname}", f"{cname}.__eq__ does not depend on {missing}: instances that differ only there are equal, "
+                           f"and the set that holds them keeps one of them", node=f.node), {"fields_compared": sorted(got)})
+        else:
+            r.ok({"class": cname, "equality_reads": sorted(got)})
+    r.require_sites(3)
+    return r
+
+
 def rules(repo: Repo, tier: str) -> List[RuleResult]:
     from . import c06, c07
     out = [rule_antecedent(repo), rule_copy(repo), rule_delete_add(repo), rule_frame(repo), c12.rule_assign(repo, "C03.assign"),
-           rule_prestate_rhs(repo), rule_universal(repo)]
+           rule_prestate_rhs(repo), rule_universal(repo), rule_setmembers(repo)]
     out.append(c06.rule_range(repo, "C03.range", APPLY, ("GroundedEffect",)))
     out.append(c06.rule_conform(repo, "C03.conform", only_funcs=(APPLY,), floor=0))
     out.append(c07.rule_escape(repo, "C03.escape"))
